@@ -15,6 +15,7 @@ RULE = ('channels: 6 Ed25519 seeds => all 36 ordered pairs (incl. equal keys) x 
         'mnemonic_is_valid true, key derivation deterministic and equal to the reference PBKDF2 chain. non-trivial = non-empty plaintext / any flip '
         '/ any deviation; states = distinct (pair, ids, length) / flips / answer streams; transitions = library calls; traces = results compared '
         'with the reference derivations')
+RULE += ' Fifth session: conversations - all sequences of <= 3 (thorough 4) packets over (direction x 6 plaintext lengths) on ONE pair of channel objects, each packet equal to the reference packet of its plaintext alone, all packets decrypt again at the end; a family of 1024 (thorough 16384) random streams each run to completion (distinct generated mnemonics valid for mnemonic_is_valid and the reference rule); mnemonic_new(words_count) for 12 / 18 / 24 (recorded finding for != 24).'
 LEVEL_TEXT = ('Bounded-exhaustive over the finite configuration space that decides the behaviour (which peer id is larger, equal ids, block-boundary '
               'plaintext lengths), complete single-bit-flip sweeps for signatures, and deviation-bounded enumeration of random-source answers for '
               'the mnemonic generator, each compared with reference derivations from the underlying primitives.')
